@@ -351,10 +351,18 @@ def post_result_to_components(model, sources, finder=None):
                 e_y = k * skylen(sy, sy + esy, theta + 90.0)
                 l_x = k * skylen(0.0, sx, theta)
                 l_y = k * skylen(0.0, sy, theta + 90.0)
-                if abs(l_x - l_y) <= 0.03 * max(l_x, l_y):
-                    o.count('component_errors_round_not_paired')
+                # which pixel axis became `a`: the reported a (or b) IS the sky length of the sx axis (the other one is the
+                # sy axis' length reduced by the non-orthogonality correction, so it cannot be identified by size alone)
+                if abs(src.a - l_x) <= 1e-6 * l_x:
+                    a_from_x = True
+                elif abs(src.b - l_x) <= 1e-6 * l_x:
+                    a_from_x = False
                 else:
-                    (emaj, emin) = (e_x, e_y) if l_x > l_y else (e_y, e_x)
+                    a_from_x = None
+                if a_from_x is None:
+                    o.count('component_errors_axis_not_identified')
+                else:
+                    (emaj, emin) = (e_x, e_y) if a_from_x else (e_y, e_x)
                     o.count('component_shape_errors_judged')
                     da = abs(src.err_a - emaj) / emaj
                     db = abs(src.err_b - emin) / emin
